@@ -47,6 +47,7 @@ Inductive role : Type :=
 | RPeerWr | RPeerRd | RPeerClosed | RPeerWriterDone | RPeerRecvDone  (* transport-internal channels *)
 | RCloseLock      (* realm.closeLock *)
 | RSessMutex      (* wamp.Session.Lock/Unlock *)
+| RPeerMutex      (* a mutex of a transport peer (serialises writes to the connection) *)
 | RWgHandlers     (* realm.waitHandlers *)
 | RWgTimers       (* dealer.timers (after the proposed repair) *)
 | RFlagClosed     (* the plain bool fields realm.closed / router.closed *)
@@ -115,7 +116,7 @@ Definition role_eqb (a b : role) : bool :=
   | RMetaStop, RMetaStop | RRouterQuit, RRouterQuit
   | RPeerWr, RPeerWr | RPeerRd, RPeerRd | RPeerClosed, RPeerClosed
   | RPeerWriterDone, RPeerWriterDone | RPeerRecvDone, RPeerRecvDone
-  | RCloseLock, RCloseLock | RSessMutex, RSessMutex | RWgHandlers, RWgHandlers
+  | RCloseLock, RCloseLock | RSessMutex, RSessMutex | RPeerMutex, RPeerMutex | RWgHandlers, RWgHandlers
   | RWgTimers, RWgTimers | RFlagClosed, RFlagClosed | RNone, RNone => true
   | _, _ => false
   end.
